@@ -100,7 +100,9 @@ public:
 
     ~watcher() noexcept {
       // Step 1: lock our own pointer (canary_).
-      auto* c = canary_.load(std::memory_order_relaxed);
+      // (acquire: seeing nullptr means the canary's destructor is done with
+      // this watcher, whose storage may be released as soon as we return)
+      auto* c = canary_.load(std::memory_order_acquire);
       if (!c) {
         return;
       }
@@ -164,7 +166,9 @@ public:
 
   ~canary() noexcept {
     // Step 1: lock our own pointer (watcher_).
-    auto* w = watcher_.load(std::memory_order_relaxed);
+    // (acquire: seeing nullptr means the watcher's destructor is done with
+    // this canary, whose storage may be released as soon as we return)
+    auto* w = watcher_.load(std::memory_order_acquire);
     if (!w) {
       return;
     }
